@@ -6,7 +6,48 @@ TB_COMMON = [
     "fact extractor tools/extract (go/ast) regenerating lean/Mc/Generated.lean from the working tree",
 ]
 
+SYNC_STREAMS = [
+    {"pkg": "pkg/controller/composite", "test": "TestVerifSync", "env": {"VERIF_ROLLING": "1"}, "shards": 8,
+     "n_quick": 1600, "n_thorough": 16000, "thorough_seeds": 3},
+    {"pkg": "pkg/controller/decorator", "test": "TestVerifSync", "shards": 8,
+     "n_quick": 1200, "n_thorough": 12000, "thorough_seeds": 3},
+]
+TB_SYNC = TB_COMMON + [
+    "simulated API server harness/verifsim/sim.go (optimistic concurrency, UID preconditions, finalizer-aware delete, status subresource, "
+    "one-controller validation, simplified server-side apply) and in-process webhook; the real dynamic client, the real generated "
+    "ControllerRevision clientset and the real webhook executor run against them",
+    "modelled not verified: client-go (dynamic client, RetryOnConflict), apimachinery unstructured accessors and label selectors, encoding/json",
+]
+RULE_SYNC = ("real single syncs (processNextWorkItem) of generated scenarios: controller spec (parent scope, 1-2 child kinds, every update method, "
+             "generateSelector, parent label selector, finalize/customize hooks, apply strategy) x cluster contents built from roles (owned up to date, "
+             "owned stale, matching orphan, look-alike of another parent, owned but unmatched, pending deletion, foreign field drift, undesired, stray, "
+             "other namespace) x ongoing rollouts (old/latest/duplicate claims); each trace is replayed against the Lean model request by request and "
+             "judged by the property's oracle; distinct = distinct (cfg, cache, calls) text; ")
+
+
+def sync_prop(theorems, nontrivial, rule, areas, assumptions=None, extra_streams=None):
+    return {"theorems": theorems, "streams": SYNC_STREAMS + (extra_streams or []), "nontrivial": nontrivial,
+            "rule": RULE_SYNC + rule, "areas": areas, "trusted_base": TB_SYNC,
+            "assumptions": assumptions or ["informer caches hold objects the API server once held (arbitrarily stale, never invented)"]}
+
+
+C04T = [("Mc.Props.C04", "Mc.C04." + t) for t in ["C04_foreign_left_alone", "C04_ours_matching_kept", "C04_ours_unmatched", "C04_orphan",
+        "C04_deleting_parent_inert", "C04_adopt_only_orphans", "C04_release_minimal", "C04_adopt_minimal"]]
+C06T = [("Mc.Props.C06", "Mc.C06." + t) for t in ["C06_equal_no_write", "C06_pending_no_write", "C06_merge_error", "C06_ondelete", "C06_recreate",
+        "C06_inplace", "C06_unknown_method", "C06_default_method", "C06_delete_options"]]
+C10T = [("Mc.Props.C10", "Mc.C10." + t) for t in ["C10_never_add_when_deleting", "C10_sync_noop", "C10_add_edit", "C10_remove_edit",
+        "C10_should_finalize_iff", "C10_hook_choice_composite", "C10_hook_choice_decorator"]]
+
 PROPS = {
+    "C02": sync_prop(C04T[:1] + C04T[3:6] + C06T[-1:], ["create-child", "update-child", "delete-child", "apply-child", "create-revision", "update-revision", "delete-revision"],
+                     "non-trivial = some child or ControllerRevision write was accepted", ["claim", "children", "revisions"]),
+    "C04": sync_prop(C04T, ["update-child", "update-revision", "failed-update"],
+                     "non-trivial = an ownership edit or another child update was attempted", ["claim"]),
+    "C06": sync_prop(C06T, ["update-child", "delete-child", "create-child"],
+                     "non-trivial = some child write was accepted", ["children"]),
+    "C10": sync_prop(C10T, ["update-parent", "hook-finalize", "create-child"],
+                     "non-trivial = the parent was edited, the finalize hook called, or a child created", ["finalizer", "parent", "hook", "children"]),
+
     "C05": {
         "theorems": [
             ("Mc.Props.C05", "Mc.C05.C05_idempotent"),
